@@ -85,9 +85,15 @@ class TypeScriptMagicNumberAnalyzer(TypeScriptBaseAnalyzer):  # thailint: ignore
             Numeric value (int or float) or None if parsing fails
         """
         text = self.extract_node_text(node)
+        if text.endswith("n"):  # BigInt literal suffix (10n)
+            text = text[:-1]
+        lowered = text.lower()
         try:
+            # Radix-prefixed literals are integers even if they contain "e" (0xE5)
+            if lowered.startswith(("0x", "0o", "0b")):
+                return int(text, 0)
             # Try int first
-            if "." not in text and "e" not in text.lower():
+            if "." not in text and "e" not in lowered:
                 return int(text, 0)  # Handles hex, octal, binary
             # Otherwise float
             return float(text)
